@@ -7,6 +7,7 @@ import (
 
 	"github.com/llir/llvm/asm"
 	"github.com/llir/llvm/ir"
+	"github.com/llir/llvm/ir/metadata"
 	"github.com/llir/llvm/ir/value"
 )
 
@@ -33,6 +34,11 @@ func wholeBuild(a []string) *ir.Module {
 		globals[f.GlobalName] = f
 		finish = append(finish, fin)
 	}
+	c3MdDefs = map[int64]metadata.Definition{}
+	for _, d := range m.MetadataDefs {
+		c3MdDefs[d.ID()] = d
+	}
+	defer func() { c3MdDefs = nil }()
 	for _, fin := range finish {
 		fin(globals)
 	}
